@@ -82,6 +82,8 @@ fn errno_of_name(s: &str) -> i64 {
         "EINVAL" => libc::EINVAL,
         "EBUSY" => libc::EBUSY,
         "EAGAIN" => libc::EAGAIN,
+        // not an errno: the call transfers fewer bytes than asked for (a short write / short copy)
+        "SHORT" => -7777,
         _ => libc::EIO,
     }) as i64
 }
@@ -505,7 +507,7 @@ fn decode_entry(pid: i32, regs: &libc::user_regs_struct, ctx: &mut RunCtx) -> Op
                 return Some(c);
             }
             c.name = "write";
-            c.raw = "write";
+            c.raw = if nr == libc::SYS_pwrite64 { "pwrite64" } else if nr == libc::SYS_writev { "writev" } else { "write" };
             fdinfo(ctx, &mut c, fd);
             c.len = Some(a[2] as i64);
             c.mutating = true;
@@ -848,6 +850,15 @@ fn is_decision_point(c: &Call, phase: &str, own: &std::collections::HashSet<Stri
             .unwrap_or(false)
     };
     if c.path.is_some() || c.path2.is_some() {
+        // creating a file in a (shared) temporary directory conflicts with a peer's sweep of that directory (listing, removal of the empty
+        // directory): the creation itself is a scheduling point even though the new file is the creator's own
+        if c.name == "open" && c.flags.contains(&"CREAT") {
+            if let Some(l) = &c.path {
+                if l.under && l.d.ends_with(".kismet_temp") {
+                    return true;
+                }
+            }
+        }
         return shared(&c.path) || shared(&c.path2);
     }
     // fd-based
@@ -1116,10 +1127,22 @@ fn advance(t: &mut Tracee, ctx: &mut RunCtx, sched: bool, stop_after_ret: bool) 
                         if let Some(n) = t.fault_left {
                             t.fault_left = Some(n - 1);
                         }
+                        if *errno == -7777 {
+                            // short transfer: ask the kernel for half of the bytes; the call really happens and really returns that count
+                            let mut regs = get_regs(pid);
+                            match call.raw {
+                                "write" | "pwrite64" => regs.rdx = std::cmp::max(1, regs.rdx / 2),
+                                "copy_file_range" => regs.r8 = std::cmp::max(1, regs.r8 / 2),
+                                "sendfile" => regs.r10 = std::cmp::max(1, regs.r10 / 2),
+                                _ => {}
+                            }
+                            set_regs(pid, &regs);
+                        } else {
                         let mut regs = get_regs(pid);
                         regs.orig_rax = u64::MAX; // skip the call
                         set_regs(pid, &regs);
                         injected = Some(*errno);
+                        }
                     }
                 }
                 if let Some((at, errno)) = t.fault_at {
